@@ -18,7 +18,7 @@ RULE = (
 )
 ASSUMPTIONS = [
     "a step is asked for k individuals with a population of at least k individuals (k <= n); weight vectors are non-negative and not all zero",
-    "HalfAndHalfInitializer is driven with bound initialize methods (it calls its arguments)",
+    "HalfAndHalfInitializer is driven with bound initialize methods and with initialiser objects",
     "the adaptive / parameterless GP variants change the size on purpose and are out of scope",
 ]
 PLAN = {
@@ -320,6 +320,7 @@ def run_init(case, rec):
         "PIGrow": PositionIndependentGrowInitializer(d),
         "Ramped": RampedHalfAndHalfInitializer(d),
         "HalfAndHalf": HalfAndHalfInitializer(GrowInitializer().initialize, FullInitializer(d).initialize),
+        "HalfAndHalf[initialiser objects]": HalfAndHalfInitializer(GrowInitializer(), FullInitializer(d)),  # "combines two initializers"
     }
     if case.get("grammar") == "deep":
         rec.count("initialisations_on_the_deep_grammar", len(inits))
